@@ -370,6 +370,39 @@ def _pair_segments(T):
                 prev = n
             if n.targets[0].attr == "all_new_obj_linked_to_mod_obj":
                 new = n
+    if prev is None and new is None:
+        # both lists out of one helper: `self.P, self.N = self.concatenate([(A0, B0), (A1, B1), …])`, the helper extending
+        # one list with the first component and another with the second, row after row, and returning them in that order
+        for n in ast.walk(init):
+            if not (isinstance(n, ast.Assign) and len(n.targets) == 1 and isinstance(n.targets[0], ast.Tuple)
+                    and [getattr(t, "attr", None) for t in n.targets[0].elts] ==
+                    ["all_previous_obj_linked_to_mod_obj", "all_new_obj_linked_to_mod_obj"]):
+                continue
+            m = _self_method_call(n.value) if isinstance(n.value, ast.Call) else None
+            h = T.methods.get(m) if m else None
+            rows = n.value.args[0] if h is not None and len(n.value.args) == 1 else None
+            if not (isinstance(rows, (ast.List, ast.Tuple)) and rows.elts and all(
+                    isinstance(r, ast.Tuple) and len(r.elts) == 2 for r in rows.elts)):
+                continue
+            hp = [a.arg for a in h.args.args if a.arg not in ("self", "cls")]
+            loop = next((x for x in h.body if isinstance(x, ast.For)), None)
+            ret = next((x for x in h.body if isinstance(x, ast.Return)), None)
+            ok = len(hp) == 1 and loop is not None and norm(loop.iter) == hp[0] and isinstance(loop.target, ast.Tuple) \
+                and len(loop.target.elts) == 2 and ret is not None and isinstance(ret.value, ast.Tuple) and len(ret.value.elts) == 2
+            if ok:
+                a_, b_ = [norm(x) for x in loop.target.elts]
+                ext = {}
+                for st in loop.body:
+                    if isinstance(st, ast.Expr) and isinstance(st.value, ast.Call) and isinstance(st.value.func, ast.Attribute) \
+                            and st.value.func.attr == "extend" and len(st.value.args) == 1:
+                        ext[norm(st.value.args[0])] = norm(st.value.func.value)
+                    else:
+                        ok = False
+                ok = ok and ext.get(a_) == norm(ret.value.elts[0]) and ext.get(b_) == norm(ret.value.elts[1]) and len(ext) == 2
+            if ok:
+                return dict(kind="lists", segments=[(r.elts[0], r.elts[1]) for r in rows.elts],
+                            n_prev=len(rows.elts), n_new=len(rows.elts), node=n,
+                            prev_role="self.all_previous_obj_linked_to_mod_obj", new_role="self.all_new_obj_linked_to_mod_obj")
     if prev is not None and new is not None:
         return dict(kind="lists", segments=list(zip(segs(prev.value), segs(new.value))),
                     n_prev=len(segs(prev.value)), n_new=len(segs(new.value)), node=prev,
@@ -429,6 +462,51 @@ def _pair_segments(T):
     return None
 
 
+def _enum_member(e):
+    """`Name.MEMBER` with an upper-case member name: a constant of an enumeration"""
+    return isinstance(e, ast.Attribute) and isinstance(e.value, ast.Name) and e.attr.isupper() and e.value.id[:1].isupper()
+
+
+def _direction_view(fn, find_method):
+    """set / reset written as one helper that takes the direction: the helper spliced in with the constant the caller
+    passes, comparisons between two enumeration constants decided, and the branches they select kept"""
+    from ..astutil import inline_helpers, clone
+    v = inline_helpers(fn, find_method, max_body=30)
+
+    def decide(t):
+        if isinstance(t, ast.Compare) and len(t.ops) == 1 and _enum_member(t.left) and _enum_member(t.comparators[0]) \
+                and norm(t.left.value) == norm(t.comparators[0].value):
+            same = t.left.attr == t.comparators[0].attr
+            if isinstance(t.ops[0], (ast.Is, ast.Eq)):
+                return same
+            if isinstance(t.ops[0], (ast.IsNot, ast.NotEq)):
+                return not same
+        if isinstance(t, ast.UnaryOp) and isinstance(t.op, ast.Not):
+            d = decide(t.operand)
+            return None if d is None else not d
+        return None
+
+    def prune(stmts):
+        out = []
+        for st in stmts:
+            for field in ("body", "orelse", "finalbody"):
+                sub = getattr(st, field, None)
+                if isinstance(sub, list) and sub and isinstance(sub[0], ast.stmt):
+                    setattr(st, field, prune(sub))
+            if isinstance(st, ast.If):
+                d = decide(st.test)
+                if d is not None:
+                    out += st.body if d else st.orelse
+                    continue
+            out.append(st)
+        return out
+    v.body = prune(v.body) or [ast.Pass()]
+    for n in ast.walk(v):
+        for ch in ast.iter_child_nodes(n):
+            ch._parent = n
+    return v
+
+
 def _zip_loop(fn, pairing=None):
     """set/reset methods: the zip loop that swaps the values, the conditions it runs under (as a formula over the path
     conditions: `if g: loop` and `if not g: return; loop` read the same) and the flag assignment under the same
@@ -445,7 +523,7 @@ def _zip_loop(fn, pairing=None):
     if loop is None:
         return None
     flags = [n for n in ast.walk(fn) if isinstance(n, ast.Assign) and isinstance(n.targets[0], ast.Attribute)
-             and isinstance(n.value, ast.Constant) and isinstance(n.value.value, bool)]
+             and ((isinstance(n.value, ast.Constant) and isinstance(n.value.value, bool)) or _enum_member(n.value))]
     if len(flags) != 1:
         return None
     flag = flags[0]
@@ -488,7 +566,15 @@ def r_mirror(E):
     rel, a = pm.find_function(MU, "ModelingUpdate.set_updated_values")
     rel, b = pm.find_function(MU, "ModelingUpdate.reset_values")
     pairing = _pair_segments(TxnAnalysis(pm))
-    sa, sb = _zip_loop(a, pairing), _zip_loop(b, pairing)
+    # (read with a direction-taking helper spliced in and the comparisons between enumeration constants decided: for
+    # the plain two-method form this view is the method itself)
+    _fm = lambda name, _T=TxnAnalysis(pm): _T.methods.get(name) if name not in ("set_updated_values", "reset_values") else None
+    a2, b2 = _direction_view(a, _fm), _direction_view(b, _fm)
+    sa, sb = _zip_loop(a2, pairing), _zip_loop(b2, pairing)
+    if sa is not None and sb is not None:
+        a, b = a2, b2
+    else:
+        sa, sb = _zip_loop(a, pairing), _zip_loop(b, pairing)
     res.instances = 1
     # the on/off state that guards the two loops has two values: a state that *counts* (set increments, reset decrements and
     # only swaps at zero) makes `set, set, reset` leave the simulated values in the model
@@ -544,20 +630,45 @@ def r_mirror(E):
                 first = first.left
             if isinstance(first, ast.ListComp) and norm(first.elt).endswith("[0]"):
                 prev_list = norm(n.targets[0])
+    if prev_list is None and pairing is not None and pairing["kind"] == "lists" and pairing["segments"]:
+        first = pairing["segments"][0][0]
+        if isinstance(first, ast.ListComp) and norm(first.elt).endswith("[0]"):
+            prev_list = pairing["prev_role"]
     if prev_list is None:
         res.undecided.append("cannot tell which zipped list holds the previous values")
     elif sa["recv_list"] != prev_list or sb["arg_list"] != prev_list:
         probs.append("set must replace the previous values by the new ones and reset the new ones by the previous")
     from ..paths import implies, parse
     equiv = lambda f, g: implies(f, g) and implies(g, f)
-    if not (sa["flag"].endswith("= True") and sb["flag"].endswith("= False") and sa["flag_attr"] == sb["flag_attr"]):
+    va, vb = sa["flag"].split("= ", 1)[-1], sb["flag"].split("= ", 1)[-1]
+    boolean = {va, vb} <= {"True", "False"}
+    if boolean and not (va == "True" and vb == "False" and sa["flag_attr"] == sb["flag_attr"]):
         probs.append(f"flag updates are not opposite ({sa['flag']} / {sb['flag']})")
-    else:
+    elif boolean:
         fl = parse(sa["flag_attr"])
         if not equiv(sa["guard"], ("not", sb["guard"])):
             probs.append("guards are not opposite")
         if not equiv(sa["guard"], ("not", fl)):
             probs.append(f"set_updated_values must be guarded by `not {sa['flag_attr']}`")
+    else:
+        # a state with two named values (an enumeration): each toggle runs exactly when the state is not already the one
+        # it establishes, the two toggles establish different states, and nothing else is ever stored in the state
+        attr = sa["flag_attr"]
+        if va == vb or attr != sb["flag_attr"]:
+            probs.append(f"flag updates are not opposite ({sa['flag']} / {sb['flag']})")
+        else:
+            def is_state(v):
+                return [parse(f"{attr} is {v}"), parse(f"{attr} == {v}")]
+            for who, g, v in (("set_updated_values", sa["guard"], va), ("reset_values", sb["guard"], vb)):
+                if not any(equiv(g, ("not", f_)) for f_ in is_state(v)):
+                    probs.append(f"{who} must run exactly when `{attr}` is not already `{v}`")
+            _, cls_ = pm.find_function(MU, "ModelingUpdate")
+            other = sorted({norm(n.value) for n in ast.walk(cls_) if isinstance(n, ast.Assign)
+                            and any(norm(t) == attr for t in n.targets)} - {va, vb})
+            direct = [o for o in other if not any(isinstance(x, ast.Name) and x.id not in ("self",) and not x.id[:1].isupper()
+                                                   for x in ast.walk(ast.parse(o, mode="eval")))]
+            if direct:
+                probs.append(f"the on/off state also receives {direct}")
     for p in probs:
         res.findings.append(Finding("R-MIRROR", f"set/reset :: {p[:100]}", f"set_updated_values / reset_values: {p}: "
                                     f"toggling a simulation on and off does not return to the same baseline objects",
